@@ -59,6 +59,9 @@ def cells(tier):
         out.append({'backend': 'dict', 'n': 2, 'rounds': 1, 'factory_none': 1,
                     'hdr_only': 1, 'opts': ['permA', 'permB', 'tempA'],
                     'kinds': ['mapping', 'permanent']})
+        out.append({'backend': 'dict', 'n': 2, 'rounds': 2,
+                    'opts': ['permA', 'permC', 'tempA', 'tempC'],
+                    'kinds': ['mapping']})
         out.append({'backend': 'dict', 'n': 2, 'rounds': 1,
                     'bounce_queue': 'queue', 'opts': ['ok', 'permA', 'tempA'],
                     'kinds': ['mapping', 'permanent']})
